@@ -246,6 +246,22 @@ Theorem get_full_data_src_is_get_A pins idx n (Ss : list (mx K)) :
   = flat_map (fun p1 => map (fun p2 => (p1, p2, map (fun S => get_A (pt pins idx n S) p1 p2) Ss)) pins) pins.
 Proof. reflexivity. Qed.
 
+(* S2PD: with the pins listed in [order] (positions in the pin dictionary), the entry in row r, column c of the table is
+   get_A of the pins that label row r and column c *)
+Theorem s2pd_src_is_get_A (m : smodel K) (order : list nat) :
+  Forall (fun i => (i < List.length (sm_pins m))%nat) order ->
+  let labels := map (fun i => nth i (sm_pins m) dpin) order in
+  s2pd_src m order = (labels, map (fun p => map (fun q => get_A m p q) labels) labels).
+Proof.
+  intros H labels. unfold s2pd_src, get_A, labels. cbv zeta. f_equal.
+  assert (E : map (fun i => nth i (map (sm_idx m) (sm_pins m)) 0%nat) order
+              = map (sm_idx m) (map (fun i => nth i (sm_pins m) dpin) order)).
+  { rewrite map_map. apply map_ext_in. intros i Hi. rewrite Forall_forall in H.
+    rewrite nth_indep with (d' := sm_idx m dpin) by (rewrite map_length; apply H; exact Hi).
+    apply map_nth. }
+  rewrite E. rewrite map_map. apply map_ext. intros p. rewrite map_map. reflexivity.
+Qed.
+
 End ReadoutSrc.
 Print Assumptions get_A_src_is_get_A.
 Print Assumptions get_T_src_is_get_T.
@@ -256,3 +272,4 @@ Print Assumptions get_data_src_is_data_table.
 Print Assumptions get_full_data_src_is_get_A.
 Print Assumptions param_columns_src_spec.
 Print Assumptions param_columns_src_one.
+Print Assumptions s2pd_src_is_get_A.
